@@ -142,6 +142,15 @@ def _frames(s: Stream, p, nsteps: int, rev: bool, stop_extra: bool) -> dict:
             split = [b - a for a, b in zip([0, *cuts], [*cuts, n])]
         fr["split"] = split
     fr["time_units"] = s.wpick([("epoch", 6), ("y2000", 2), ("hours", 2), ("days", 1), ("days1948", 1)])
+    if fr.get("split") and len(fr["split"]) > 1 and s.chance(0.25):
+        # files that come from different runs of the ocean model: each counts from its own reference time
+        if s.chance(0.5):
+            fr["time_units_per_file"] = [s.pick(["epoch", "y2000", "hours", "days"]) for _ in fr["split"]]
+        else:
+            # ... each reference a while before that of the previous file: the raw numbers still increase
+            # from file to file although they do not count from the same instant
+            step_min = s.pick([7, 60, 180, 1440])
+            fr["time_units_per_file"] = [f"back{k * step_min}" for k in range(len(fr["split"]))]
     if s.chance(p["p_packed"]):
         fr["storage"] = "i2"
         # each component packed to its own range, as ROMS post-processing does
